@@ -541,7 +541,8 @@ func ruleOpenLog(r *Run) {
 		}
 		bad := false
 		nChain := 0
-		for _, lv := range phiLeaves(v) {
+		for _, lf := range expandLeaves(v, nil, 0) {
+			lv := lf.V
 			if s, ok := constStr(lv); ok && s == "" {
 				continue
 			}
@@ -562,7 +563,7 @@ func ruleOpenLog(r *Run) {
 				continue
 			}
 			ac, ok := unspill(uc.Call.Args[0]).(*ssa.Call)
-			if !ok || ac.Common().StaticCallee() == nil || ac.Common().StaticCallee().Name() != "AsTime" || ac.Call.Args[0] != ssa.Value(w.prm) {
+			if !ok || ac.Common().StaticCallee() == nil || ac.Common().StaticCallee().Name() != "AsTime" || lf.resolve(ac.Call.Args[0]) != ssa.Value(w.prm) {
 				bad = true
 				ow.Fail(r.pos(uc.Pos()), "%s derives from %s, not directly from %s.AsTime()", w.field, describe(uc.Call.Args[0], 0), w.prm.Name())
 				continue
@@ -598,9 +599,10 @@ func ruleOpenLog(r *Run) {
 			}
 		}
 	}
-	check(sl)
-	for _, a := range sl.AnonFuncs {
-		check(a)
+	for _, f := range funcGroup(sl) {
+		if f != fn {
+			check(f)
+		}
 	}
 	if n < 2 {
 		oc.Fail(r.pos(sl.Pos()), "found %d openLog calls, floor 2", n)
@@ -824,3 +826,57 @@ func fieldRoots(v ssa.Value, root ssa.Value) []string {
 }
 
 var _ = types.Identical
+
+// leaf is a value reached by expanding phis and calls to small same-package
+// helpers; Subst maps the helpers' parameters to the arguments they were given.
+type leaf struct {
+	V     ssa.Value
+	Subst map[ssa.Value]ssa.Value
+}
+
+func (l leaf) resolve(v ssa.Value) ssa.Value {
+	for i := 0; i < 4; i++ {
+		v = unspill(v)
+		n, ok := l.Subst[v]
+		if !ok {
+			return v
+		}
+		v = n
+	}
+	return v
+}
+
+// expandLeaves expands phis, and calls to same-package single-result helpers
+// into the values those helpers return (value-level inlining, two levels).
+func expandLeaves(v ssa.Value, subst map[ssa.Value]ssa.Value, depth int) []leaf {
+	var out []leaf
+	for _, lv := range phiLeaves(v) {
+		c, ok := lv.(*ssa.Call)
+		callee := (*ssa.Function)(nil)
+		if ok {
+			callee = c.Common().StaticCallee()
+		}
+		if callee == nil || callee.Blocks == nil || depth >= 2 || callee.Pkg == nil || !isFirstParty(callee.Pkg.Pkg.Path()) ||
+			callee.Signature.Results().Len() != 1 || c.Parent() == nil || callee.Pkg != c.Parent().Pkg && c.Parent().Parent() == nil {
+			out = append(out, leaf{lv, subst})
+			continue
+		}
+		ns := map[ssa.Value]ssa.Value{}
+		for k, x := range subst {
+			ns[k] = x
+		}
+		for i, prm := range callee.Params {
+			if i < len(c.Call.Args) {
+				a := unspill(c.Call.Args[i])
+				if r2, ok := subst[a]; ok {
+					a = r2
+				}
+				ns[prm] = a
+			}
+		}
+		for _, ret := range returnsOf(callee) {
+			out = append(out, expandLeaves(ret.Results[0], ns, depth+1)...)
+		}
+	}
+	return out
+}
